@@ -373,6 +373,30 @@ func (r *rewriter) atomics(f *ast.File) {
 			}
 			return true
 		}
+		if fn != nil && fn.Pkg() != nil && fn.Pkg().Path() == "sync" && fn.Name() == "TryLock" && len(call.Args) == 0 {
+			// x.TryLock() (an expression): goes through the lock model like Lock
+			if sel, ok := call.Fun.(*ast.SelectorExpr); ok {
+				recv := fn.Type().(*types.Signature).Recv().Type()
+				if p, ok := recv.(*types.Pointer); ok {
+					recv = p.Elem()
+				}
+				if named, ok := recv.(*types.Named); ok && (named.Obj().Name() == "Mutex" || named.Obj().Name() == "RWMutex") {
+					kind := "Mutex"
+					if named.Obj().Name() == "RWMutex" {
+						kind = "RW"
+					}
+					amp := "&"
+					if _, isPtr := r.pkg.TypesInfo.TypeOf(sel.X).Underlying().(*types.Pointer); isPtr {
+						amp = ""
+					}
+					r.add(call.Pos(), call.End(),
+						lit(fmt.Sprintf("%s.%sTryLock(%s(", hookName, kind, amp)), r.node(sel.X),
+						lit(fmt.Sprintf("), %q)", r.site(call.Pos()))))
+					st.Rewritten["trylock"]++
+				}
+			}
+			return true
+		}
 		if fn == nil || fn.Pkg() == nil || fn.Pkg().Path() != "sync/atomic" {
 			return true
 		}
